@@ -145,6 +145,7 @@ async def run_concurrent(world, case):
     rid_of = {r['txoid']: r['rid'] for r in await world.sql("SELECT rowid AS rid, txoid FROM txo")}
     c03.RecordingRandom.log = []
     c03.RecordingRandom.source = random.Random(case.get('seed', 0))
+    c03.RecordingRandom.tagger = cur_build.get
     events = []
     yields = {b: list(d.get('yields', [])) for b, d in enumerate(case['builds'])}
     ins = Instrument(world, events, yields)
@@ -169,6 +170,8 @@ async def run_concurrent(world, case):
             return
         res['tx'] = tx
         res['added'] = [rid_of.get(t.txo_ref.id, -1) for t in tx.inputs[len(pre):]]
+        extra = list(tx.outputs)[len(outs):]
+        res['change'] = extra[0].amount if len(extra) == 1 else (None if not extra else [o.amount for o in extra])
         for _ in range(d.get('hold_yields', 0)):
             await asyncio.sleep(0)
         act = d['action']
@@ -209,14 +212,18 @@ async def run_concurrent(world, case):
         await asyncio.gather(*tasks)
     finally:
         ins.restore()
+        c03.RecordingRandom.tagger = None
         ledger.network = old_network
         ledger._utxo_reservation_lock = asyncio.Lock()
     rows_after = await world.rows(funding)
     # a broadcast input keeps its flag but is spent: it is no longer an output anybody could select
     reserved_after = sorted(r['rid'] for r in rows_after if r['is_reserved'] and not r['spent'])
-    shuffles = [[[rid_of[i] for i in a], [rid_of[i] for i in b]] for a, b in c03.RecordingRandom.log]
+    shuffles = [[[rid_of[i] for i in a], [rid_of[i] for i in b]] for a, b, _ in c03.RecordingRandom.log]
+    shuffles_by = {}
+    for a, b, who in c03.RecordingRandom.log:
+        shuffles_by.setdefault(who, []).append([[rid_of[i] for i in a], [rid_of[i] for i in b]])
     obs = {'rows_before': rows_before, 'rows_after': rows_after, 'events': events, 'results': results,
-           'asked': ins.asked, 'shuffles': shuffles, 'rid_of': rid_of}
+           'asked': ins.asked, 'shuffles': shuffles, 'shuffles_by': shuffles_by, 'rid_of': rid_of}
     impl = {'builds': [], 'reserved': reserved_after,
             'wallet': sorted(r['rid'] for r in c03.spendable_rows(rows_after))}
     for b in range(len(case['builds'])):
@@ -237,10 +244,16 @@ def schedule_of(events, n):
     """the model schedule induced by the observed events: one entry per model step"""
     sched, in_round, marks = [], {}, {}
     locked = {b for kind, b, _ in events if kind == 'lock'}
+    holding = set()
     for kind, b, _ in events:
         if b is None or b not in locked:
             continue
+        if kind == 'reserve' and b not in holding:
+            # create's first statement reserves the pre-chosen inputs; in these cases they are never rows of the
+            # wallet, so it changes nothing and is not a step of the model
+            continue
         if kind == 'lock':
+            holding.add(b)
             sched.append(b)
             in_round[b] = 1
         elif kind == 'read':
@@ -253,6 +266,7 @@ def schedule_of(events, n):
             sched.append(b)
             in_round[b] = in_round.get(b, 0) + 1
         elif kind == 'unlock':
+            holding.discard(b)
             pad = max(0, 4 - in_round.get(b, 0))
             sched += [b] * (pad + 1)
             in_round[b] = 0
@@ -343,6 +357,57 @@ def monitor(case, impl, obs):
     return None
 
 
+
+def linearize(c03_model, case, impl, obs):
+    """replays the builds one after the other, in the order in which they entered the critical section, through
+    Model/C03's create: returns (what the implementation's builds did, what the sequential model run predicts) or
+    None when some build entered the critical section more than once (then only Model/C14's run applies)"""
+    n = len(case['builds'])
+    if any(len(obs['asked'].get(b, [])) > 1 for b in range(n)):
+        return None
+    wallet = c03.model_wallet(obs['rows_before'])
+    got, want = {}, {}
+    taken = {}
+    for kind, b, _ in obs['events']:
+        if b is None:
+            continue
+        if kind in ('read', 'sqlite'):
+            # the moment the build reads the wallet inside its critical section
+            d = case['builds'][b]
+            r = obs['results'][b]
+            req = dict(fpb=case['fpb'], fpnc=case['fpnc'], strategy=case['strategy'], shuffles=obs['shuffles_by'].get(b, []),
+                       pre=r['pre_desc'], outs=[c03.out_desc(o, None) for o in r['outs']], wallet=wallet)
+            try:
+                m = c03_model.call('create', **req)
+            except vlib.ModelError as e:
+                m = {'result': 'MODELERROR ' + str(e)}
+            if m.get('result') == 'ok':
+                want[b] = {'result': 'ok', 'added': m['added'], 'change': m['change']}
+                taken[b] = set(m['added'])
+                for e in wallet:
+                    if e[0][0] in taken[b]:
+                        e[1] = True
+            else:
+                want[b] = {'result': m.get('result')}
+                taken[b] = set()
+            if r.get('status') == 'failed':
+                got[b] = {'result': 'InsufficientFundsError'}
+            else:
+                got[b] = {'result': 'ok', 'added': r.get('added'), 'change': r.get('change')}
+            if case['strategy'] == 'sqlite':
+                for x in (got[b], want[b]):
+                    if 'added' in x:
+                        x['added'] = sorted(x['added'])
+        elif kind == 'release' and b in taken:
+            for e in wallet:
+                if e[0][0] in taken[b]:
+                    e[1] = False
+            taken[b] = set()
+        elif kind == 'spend' and b in taken:
+            wallet = [e for e in wallet if e[0][0] not in taken[b]]
+            taken[b] = set()
+    return got, want
+
 # ----------------------------------------------------------------------------------------------
 def gen_case(rng, tier):
     strategy = rng.choice(c03.strategies())
@@ -382,7 +447,7 @@ def gen_case(rng, tier):
             'reserved': [], 'builds': builds, 'start_order': order, 'seed': rng.getrandbits(32)}
 
 
-async def check_concurrent(run, world, model, case, kind):
+async def check_concurrent(run, world, model, case, kind, c03_model=None):
     impl, obs = await run_concurrent(world, case)
     n = len(case['builds'])
     sched, marks = schedule_of(obs['events'], n)
@@ -427,7 +492,15 @@ async def check_concurrent(run, world, model, case, kind):
             for b in d['builds']:
                 b['took'] = sorted(b['took'])
                 b['held'] = sorted(b['held'])
-    run.compare('C14.run', dict(case, sched=sched), impl, mod)
+    if not run.compare('C14.run', dict(case, sched=sched), impl, mod):
+        return
+    if c03_model is not None:
+        lin = linearize(c03_model, case, impl, obs)
+        if lin is None:
+            run.count('multi-round (no sequential replay)')
+        else:
+            run.count('sequential replay through C03.create')
+            run.compare('C14.linearizable', case, {str(k): v for k, v in lin[0].items()}, {str(k): v for k, v in lin[1].items()})
 
 
 def corpus_cases():
@@ -443,21 +516,23 @@ def corpus_cases():
 
 async def amain(run, only=None):
     model = vlib.Model('C14')
+    c03_model = vlib.Model('C03')
     world = c03.World(asyncio.get_event_loop())
     await world.open()
     try:
         if only is not None:
-            await check_concurrent(run, world, model, only, 'replay')
+            await check_concurrent(run, world, model, only, 'replay', c03_model)
             return
         for case in corpus_cases():
             case = dict(case)
             case.pop('origin', None)
             case.pop('sched', None)
-            await check_concurrent(run, world, model, case, 'corpus')
-        for _ in range(vlib.scaled(run.tier, 1200, 30000)):
-            await check_concurrent(run, world, model, gen_case(run.rng, run.tier), 'generated')
+            await check_concurrent(run, world, model, case, 'corpus', c03_model)
+        for _ in range(vlib.scaled(run.tier, 800, 24000)):
+            await check_concurrent(run, world, model, gen_case(run.rng, run.tier), 'generated', c03_model)
     finally:
         model.close()
+        c03_model.close()
         await world.close()
 
 
